@@ -32,6 +32,9 @@ def judge(ctx, g, r_np, r_p, thr=THR, exact_ok=True):
     xtl = gen.exact_tl(g)
     n = len(players)
     inp = {"game": gen.desc(g), "thr": float(thr)}
+    if "Timeout" in (r_np["outcome"], r_p["outcome"]):
+        ctx.count("timeout_skipped")          # termination is C06's clause, not C01's
+        return
     if r_np["outcome"] != "ok":
         ctx.violation("reachability-fails", inp, {"outcome": r_np["outcome"], "msg": r_np.get("msg")})
         return
@@ -88,14 +91,19 @@ def judge(ctx, g, r_np, r_p, thr=THR, exact_ok=True):
         return any(0 < y < 1 for y in x)
 
 
-def check_case(ctx, g, model=None, thr=None, exact_ok=True):
+def check_case(ctx, g, model=None, thr=None, exact_ok=True, limit=10.0):
     t = 10 ** (-6) if thr is None else thr
-    r_np = impl.reach_only(g, prune=False, thr=t)
-    r_p = impl.reach_only(g, prune=True, thr=t)
+    r_np = impl.reach_only(g, prune=False, thr=t, limit=limit)
+    r_p = impl.reach_only(g, prune=True, thr=t, limit=limit)
     nt = judge(ctx, g, r_np, r_p, THR if thr is None else Fr(thr), exact_ok)
     small = len(g["players"]) <= 30
     ctx.case({"game": gen.desc(g)} if small else {"meta": g.get("_meta"), "n": len(g["players"])}, bool(nt))
     ctx.count("family=" + str(g.get("_meta", {}).get("family", "?")).split(":")[0])
+    if model is not None and small and len(g["players"]) <= 14 and thr is None:
+        # the same model over exact rationals (the instantiation the theorems are about)
+        model.add("reach", dict(wire.game_payload(g, exact=True), prune=False, digits=6, fuel=20000),
+                  expect=r_np, inp={"game": gen.desc(g)}, suite="exact.reach",
+                  cmp=wire.measure_dev(ctx, "float_vs_exact_max_abs_dev", "probs", "probs"))
     if model is not None:
         digits = r_np.get("floor", 6)
         for prune, r in ((False, r_np), (True, r_p)):
@@ -129,12 +137,12 @@ def run(ctx, model=None):
     # mixing cycles: thousands of sweeps
     from props.c06 import chain_game
     for n in ([1200] if ctx.quick() else [1200, 2500, 5000]):
-        check_case(ctx, chain_game(n, rng), model if n <= 1200 else None, exact_ok=False)
+        check_case(ctx, chain_game(n, rng), model if n <= 1200 else None, exact_ok=False, limit=900.0)
     for gam in ([Fr(999, 1000)] if ctx.quick() else [Fr(999, 1000), Fr(9999, 10000)]):
         r_ = (1 - gam) / 2
         g = gen.finish([0, 0, 0], [PR, PR, PR], [[(gam, 0), (r_, 1), (r_, 2)], [(Fr(1), 1)], [(Fr(1), 2)]], [1],
                        {"family": "slow_cycle", "gamma": str(gam)})
-        check_case(ctx, g, model)
+        check_case(ctx, g, model, limit=300.0)
     # thresholds
     for k in range(20 if ctx.quick() else 300):
         g = gen.stopping_game(rng, extra_finals=0.25)
@@ -145,7 +153,7 @@ def run(ctx, model=None):
     for (L, W) in shapes:
         for fd in (False, True):
             for g in board_games(rng, L, W, fd):
-                check_case(ctx, g, model, exact_ok=False)
+                check_case(ctx, g, model, exact_ok=False, limit=300.0)
 
 
 def witness_game():
